@@ -263,14 +263,21 @@ Cmp(a, b) ==
 \* fallible = TRUE: Result-returning conversion; FALSE: the infallible forms.
 \* width: bits of the target integer (64 for usize, 8 for u8).  A sequence that
 \* does not fit is refused -- an error, or no value at all -- never truncated.
-ToInt(src, fallible, width) ==
+ToIntRes(src, fallible, width) ==
     LET x == Resolve(src)
         bits == Pack(x.s, W(x.c))
+    IN  IF ~x.ok THEN Panic
+        ELSE IF Len(bits) <= width THEN [ok |-> TRUE, limbs |-> Limbs(bits, 1)]
+        ELSE IF Len(bits) <= 64 THEN [free |-> TRUE]     \* fits a machine word but not the 8-bit target: not constrained
+        ELSE IF fallible THEN [ok |-> FALSE]
+        ELSE Panic
+
+ToInt(src, fallible, width, observed) ==
+    LET x == Resolve(src)
+        e == ToIntRes(src, fallible, width)
     IN  /\ x.ok => Len(x.s) > 0
-        /\ out' = IF ~x.ok THEN Panic
-                  ELSE IF Len(bits) <= width THEN [ok |-> TRUE, limbs |-> Limbs(bits, 1)]
-                  ELSE IF fallible THEN [ok |-> FALSE]
-                  ELSE Panic
+        /\ "free" \notin DOMAIN e => observed = e
+        /\ out' = observed
         /\ OnlyOut
 
 \* the by-value conversion consumes the register's own value (left empty afterwards)
@@ -444,11 +451,20 @@ TextBaseToDna(byte) ==
 (***************************************************************************)
 (* Translation (C13, C14)                                                  *)
 (***************************************************************************)
-\* standard table on a DNA slice; a wrong length must not yield an amino acid
-ToAmino(src) ==
+\* standard table on a DNA slice.  The property speaks about three-base codons only: what a
+\* wrong-length argument does (today: a panic) is not constrained, any observation is allowed
+ToAminoRes(src) ==
     LET x == Resolve(src)
+    IN  IF ~x.ok THEN Panic
+        ELSE IF Len(x.s) = 3 THEN [ok |-> TRUE, aa |-> DnaToAmino(x.s)]
+        ELSE [free |-> TRUE]
+
+ToAmino(src, observed) ==
+    LET x == Resolve(src)
+        e == ToAminoRes(src)
     IN  /\ x.ok => x.c = "dna"
-        /\ out' = IF x.ok /\ Len(x.s) = 3 THEN [ok |-> TRUE, aa |-> DnaToAmino(x.s)] ELSE Panic
+        /\ "free" \notin DOMAIN e => observed = e
+        /\ out' = observed
         /\ OnlyOut
 
 \* ambiguous codons: kind is ok / ambiguous / invalid; gap-containing codons
